@@ -339,7 +339,12 @@ def _q20q(bf, vf_, cf, op, ki, pre_b):
     if pb is not None:
         user["backend"] = pb
     w = vfs.VFS()
-    w.add(ROOT + "/workflow.py", 1, "#")
+    if q.SHARD.get("linked"):
+        # workflow.py is a symbolic link to a workflow kept elsewhere: the configuration still lives next to the link
+        w.add("/vfs/shared/flows/workflow.py", 1, "#")
+        w.links[ROOT + "/workflow.py"] = "/vfs/shared/flows/workflow.py"
+    else:
+        w.add(ROOT + "/workflow.py", 1, "#")
     w.add(CONF, 1, json.dumps(user))
     vfs.install(w)
     real = (os.getcwd, cli_mod.configure_logging, cli_mod.guess_backend, click._compat.isatty)
@@ -361,6 +366,9 @@ def _q20q(bf, vf_, cf, op, ki, pre_b):
         else:
             raw(config_mod.unset)(ctx.obj, k)
             model.pop(k, None)
+        stray = [f for f in w.files if f.endswith(".gwfconf.json") and f != CONF]
+        if stray:
+            return "a configuration file was written away from the workflow file: %s" % stray
         after = json.loads(w.files[CONF][1])
         if after != model:
             return "flags (backend %s, verbose %s, colour %s) then config %s %s: file holds %s, expected %s" % (
@@ -380,5 +388,5 @@ def q20q(bf: int, vf_: int, cf: int, op: int, ki: int, pre_b: int) -> str:
 
 
 QUERIES.append(
-    {"name": "Q20q", "fn": q20q, "shards": [{"bf": 0}, {"bf": 1}, {"bf": 2}], "timeout": 900,
-     "bound": "cli.main with every combination of -b (3) / -v (3) / colour (3) flags, stored backend absent or one of two, followed by config set / unset of one of 3 keys on the Context main built: the file changes in that key only"})
+    {"name": "Q20q", "fn": q20q, "shards": [{"bf": 0}, {"bf": 1}, {"bf": 2}, {"bf": 0, "linked": True}], "timeout": 900,
+     "bound": "cli.main with every combination of -b (3) / -v (3) / colour (3) flags, stored backend absent or one of two, followed by config set / unset of one of 3 keys on the Context main built: the file next to the workflow file (also when that is a symbolic link to a shared workflow) changes in that key only"})
